@@ -10,6 +10,7 @@
 package vclock
 
 import (
+	"context"
 	"sort"
 	"sync"
 	"time"
@@ -265,4 +266,30 @@ func (t *Timer) Reset(d time.Duration) bool {
 		})
 	}
 	return was
+}
+
+// ---------------------------------------------------------------- delays spelt as contexts
+//
+// DelayContext stands in for context.WithTimeout(context.Background(), d) where the code only waits for the context to
+// expire (a retry delay). Real mode: the real thing. Virtual modes: by default the delay counts as elapsed at once - the
+// returned context is already expired and the clock is not moved (a delay of a few hundred milliseconds, modelled as
+// zero); with HoldDelays(true) the context stays open until it is cancelled or virtual time is advanced past d, which
+// lets a harness make "the caller's own context ends during the delay" the only thing that can happen.
+var holdDelays bool
+
+func HoldDelays(b bool) { mu.Lock(); holdDelays = b; mu.Unlock() }
+
+func DelayContext(d time.Duration) (context.Context, context.CancelFunc) {
+	mu.Lock()
+	m, hold := cur, holdDelays
+	mu.Unlock()
+	if m == Real {
+		return context.WithTimeout(context.Background(), d)
+	}
+	if !hold {
+		return context.WithDeadline(context.Background(), time.Unix(1, 0))
+	}
+	ctx, cancel := context.WithCancel(context.Background())
+	t := AfterFunc(d, cancel)
+	return ctx, func() { t.Stop(); cancel() }
 }
